@@ -67,6 +67,8 @@ enum PStep {
     Resolve(usize, bool, i32),
     Finish(u64, u8),
     Advance,
+    /// waitsendpay that carries a timeout answers 200 while its part is still pending
+    WaitTimeout(u64),
 }
 
 #[derive(Clone, Debug)]
@@ -83,6 +85,11 @@ pub struct PScenario {
     pub faults: u32,
     /// groupid of each initial part (earlier attempts have lower group ids); empty = all 1
     pub groups: Vec<u64>,
+    /// first initial part has partid 0 (omitted in listsendpays, as lightningd does)
+    pub zero_partid: bool,
+    /// directed (single deterministic execution): 0 = off (enumerate); 1 = fail parts in listed
+    /// order; 2 = fail in reverse order; 3 = fail all but the last listed, which completes last
+    pub directed: u8,
 }
 
 #[derive(Default)]
@@ -137,6 +144,13 @@ fn enabled(e: &PEnv, sc: &PScenario) -> Vec<PStep> {
             v.push(PStep::Apply(c.id));
             if e.faults_left > 0 && c.method != "pay" {
                 v.push(PStep::Fault(c.id, if c.method == "waitsendpay" { 200 } else { -1 }));
+            }
+        }
+    }
+    for c in &e.calls {
+        if let CState::Blocked(_) = c.state {
+            if c.params.get("timeout").map(|t| !t.is_null()).unwrap_or(false) {
+                v.push(PStep::WaitTimeout(c.id));
             }
         }
     }
@@ -250,6 +264,13 @@ fn exec(e: &mut PEnv, s: &PStep) {
             e.calls[ci].state = CState::Done;
         }
         PStep::Advance => {}
+        PStep::WaitTimeout(id) => {
+            let idx = e.calls.iter().position(|c| c.id == *id).unwrap();
+            if let Some(tx) = e.calls[idx].tx.take() {
+                let _ = tx.send(Err(RpcErr::new(200, "Timed out while waiting")));
+            }
+            e.calls[idx].state = CState::Done;
+        }
     }
 }
 
@@ -265,7 +286,7 @@ fn run_once(sc: &PScenario, prefix: &[usize], st: &mut PStats, max_steps: usize)
             id: 100 + k as u64,
             hash_hex: hash_hex.clone(),
             groupid: sc.groups.get(k).copied().unwrap_or(1),
-            partid: k as u64 + 1,
+            partid: if sc.zero_partid { k as u64 } else { k as u64 + 1 },
             status: *s,
             preimage: if *s == PartStatus::Complete { Some(pre) } else { None },
             fail_code: if *s == PartStatus::Failed { Some(203) } else { None },
@@ -320,7 +341,28 @@ fn run_once(sc: &PScenario, prefix: &[usize], st: &mut PStats, max_steps: usize)
                 break;
             }
             let pos = trace.len();
-            let choice = if pos < prefix.len() { prefix[pos].min(steps.len() - 1) } else { 0 };
+            let choice = if sc.directed > 0 {
+                // RPC effects first, then parts in the directed order
+                if let Some(i) = steps.iter().position(|s| matches!(s, PStep::Apply(_))) {
+                    i
+                } else {
+                    let pending: Vec<usize> = e.node.parts.iter().enumerate().filter(|(_, p)| p.status == PartStatus::Pending).map(|(k, _)| k).collect();
+                    let last = e.node.parts.len() - 1;
+                    let (k, ok) = match sc.directed {
+                        1 => (*pending.first().unwrap(), false),
+                        2 => (*pending.last().unwrap(), false),
+                        _ => {
+                            let k = *pending.first().unwrap();
+                            (k, k == last)
+                        }
+                    };
+                    steps.iter().position(|s| matches!(s, PStep::Resolve(kk, o, _) if *kk == k && *o == ok)).unwrap_or(0)
+                }
+            } else if pos < prefix.len() {
+                prefix[pos].min(steps.len() - 1)
+            } else {
+                0
+            };
             trace.push((choice, steps.len()));
             let s = steps[choice].clone();
             exec(&mut e, &s);
@@ -401,7 +443,10 @@ pub fn explore(sc: &PScenario, st: &mut PStats, max_runs: u64) -> bool {
     let mut n = 0u64;
     st.scenarios += 1;
     loop {
-        let trace = run_once(sc, &prefix, st, 40);
+        let trace = run_once(sc, &prefix, st, if sc.directed > 0 { 400 } else { 40 });
+        if sc.directed > 0 {
+            return true;
+        }
         n += 1;
         // backtrack
         let mut t = trace;
@@ -430,14 +475,14 @@ pub fn scenarios_c15(thorough: bool) -> Vec<PScenario> {
     let sts = [Pending, Complete, Failed];
     let max = if thorough { 3 } else { 3 };
     // all multisets of up to `max` parts (order matters little; enumerate sequences up to 3)
-    v.push(PScenario { pay: false, initial: vec![], codes: vec![203], max_parts: 0, faults: 0, groups: vec![] });
+    v.push(PScenario { pay: false, initial: vec![], codes: vec![203], max_parts: 0, faults: 0, groups: vec![], zero_partid: false, directed: 0 });
     for a in sts {
-        v.push(PScenario { pay: false, initial: vec![a], codes: vec![202, 203, 204, 208, 209], max_parts: 0, faults: 0, groups: vec![] });
+        v.push(PScenario { pay: false, initial: vec![a], codes: vec![202, 203, 204, 208, 209], max_parts: 0, faults: 0, groups: vec![], zero_partid: false, directed: 0 });
         for b in sts {
-            v.push(PScenario { pay: false, initial: vec![a, b], codes: vec![203, 204], max_parts: 0, faults: 0, groups: vec![] });
+            v.push(PScenario { pay: false, initial: vec![a, b], codes: vec![203, 204], max_parts: 0, faults: 0, groups: vec![], zero_partid: false, directed: 0 });
             if max >= 3 {
                 for c in sts {
-                    v.push(PScenario { pay: false, initial: vec![a, b, c], codes: vec![204], max_parts: 0, faults: 0, groups: vec![] });
+                    v.push(PScenario { pay: false, initial: vec![a, b, c], codes: vec![204], max_parts: 0, faults: 0, groups: vec![], zero_partid: false, directed: 0 });
                 }
             }
         }
@@ -451,16 +496,26 @@ pub fn scenarios_c15(thorough: bool) -> Vec<PScenario> {
         (vec![Pending, Pending, Pending], vec![1, 2, 2]),
         (vec![Pending, Pending, Failed], vec![1, 1, 2]),
     ] {
-        v.push(PScenario { pay: false, initial: init, codes: vec![203, 204], max_parts: 0, faults: 0, groups });
+        v.push(PScenario { pay: false, initial: init, codes: vec![203, 204], max_parts: 0, faults: 0, groups, zero_partid: false, directed: 0 });
     }
-    v.push(PScenario { pay: false, initial: vec![Pending, Pending], codes: vec![203], max_parts: 0, faults: 1, groups: vec![] });
-    v.push(PScenario { pay: false, initial: vec![Pending], codes: vec![204], max_parts: 0, faults: 2, groups: vec![] });
+    v.push(PScenario { pay: false, initial: vec![Pending, Pending], codes: vec![203], max_parts: 0, faults: 1, groups: vec![], zero_partid: false, directed: 0 });
+    v.push(PScenario { pay: false, initial: vec![Pending], codes: vec![204], max_parts: 0, faults: 2, groups: vec![], zero_partid: false, directed: 0 });
+    // lightningd omits partid 0
+    for init in [vec![Pending], vec![Pending, Pending], vec![Complete], vec![Failed, Pending]] {
+        v.push(PScenario { pay: false, initial: init, codes: vec![203, 204], max_parts: 0, faults: 0, groups: vec![], zero_partid: true, directed: 0 });
+    }
+    // many parts, one deterministic order each (beyond what can be enumerated)
+    for n in [5usize, 16, 17, 18, 33, 64] {
+        for d in [1u8, 2, 3] {
+            v.push(PScenario { pay: false, initial: vec![Pending; n], codes: vec![204], max_parts: 0, faults: 0, groups: vec![], zero_partid: false, directed: d });
+        }
+    }
     if thorough {
-        v.push(PScenario { pay: false, initial: vec![Pending, Pending, Pending, Pending], codes: vec![204], max_parts: 0, faults: 0, groups: vec![] });
+        v.push(PScenario { pay: false, initial: vec![Pending, Pending, Pending, Pending], codes: vec![204], max_parts: 0, faults: 0, groups: vec![], zero_partid: false, directed: 0 });
         // F2: one read fault anywhere
         for a in sts {
             for b in sts {
-                v.push(PScenario { pay: false, initial: vec![a, b], codes: vec![203], max_parts: 0, faults: 1, groups: vec![] });
+                v.push(PScenario { pay: false, initial: vec![a, b], codes: vec![203], max_parts: 0, faults: 1, groups: vec![], zero_partid: false, directed: 0 });
             }
         }
     }
@@ -468,10 +523,13 @@ pub fn scenarios_c15(thorough: bool) -> Vec<PScenario> {
 }
 
 pub fn scenarios_c16(thorough: bool) -> Vec<PScenario> {
-    let mut v = vec![PScenario { pay: true, initial: vec![], codes: vec![203], max_parts: 1, faults: 0, groups: vec![] }, PScenario { pay: true, initial: vec![], codes: vec![204], max_parts: 2, faults: 0, groups: vec![] }];
+    let mut v = vec![PScenario { pay: true, initial: vec![], codes: vec![203], max_parts: 1, faults: 0, groups: vec![], zero_partid: false, directed: 0 }, PScenario { pay: true, initial: vec![], codes: vec![204], max_parts: 2, faults: 0, groups: vec![], zero_partid: false, directed: 0 }];
+    // one read fault (transient RPC error) somewhere after pay: failure may still only be reported
+    // when nothing is pending or complete
+    v.push(PScenario { pay: true, initial: vec![], codes: vec![203], max_parts: 2, faults: 1, groups: vec![], zero_partid: false, directed: 0 });
     if thorough {
-        v.push(PScenario { pay: true, initial: vec![], codes: vec![203, 209], max_parts: 2, faults: 0, groups: vec![] });
-        v.push(PScenario { pay: true, initial: vec![], codes: vec![203], max_parts: 3, faults: 0, groups: vec![] });
+        v.push(PScenario { pay: true, initial: vec![], codes: vec![203, 209], max_parts: 2, faults: 0, groups: vec![], zero_partid: false, directed: 0 });
+        v.push(PScenario { pay: true, initial: vec![], codes: vec![203], max_parts: 3, faults: 0, groups: vec![], zero_partid: false, directed: 0 });
     }
     v
 }
